@@ -61,6 +61,7 @@ def run(ctx, repo):
     ctx.call(R6B.r_constructor_kind_checked, repo, ['loader.SafeLoader', 'loader.BaseLoader'])
     ctx.call(RG.r_parser_grammar, repo, max_len=8 if ctx.tier == 'thorough' else 6)
     ctx.call(RSTATE.r_directives_reset, repo)
+    ctx.call(R6B.r_recursion_inventory, repo, ('composer', 'constructor', 'resolver'))
 
 
 if __name__ == '__main__':
